@@ -278,6 +278,8 @@ struct SplitMix
 };
 
 int harness_main(int argc, char **argv);
+void write_stats_public();
+Sec *find_section(std::string const &name);
 }
 
 #define VERIF_CAT2(a, b) a##b
